@@ -46,6 +46,6 @@ SEARCH_SCALE = 3
 
 def drivers():
     def args(tier, seed, scale):
-        n = (90 if tier == "quick" else 1500) * scale
+        n = (160 if tier == "quick" else 2500) * scale
         return ["-profile", "c17", "-n", str(n), "-seed", str(seed)]
     return [{"driver": "admindrive", "args": args, "replay_args": lambda tier: ["-profile", "c17"]}]
